@@ -563,6 +563,12 @@ def q_local_expectation(s, a):
     kw = {}
     if s.cls in ("Circuit", "CircuitDense"):
         kw["optimize"] = "greedy"
+    # documented keyword spellings of the same question (the state is normalised: every gate is unitary)
+    spell = (seed // 7) % 4
+    if spell == 2:
+        kw["dtype"] = "complex128"
+    elif spell == 3 and s.cls not in ("Circuit", "CircuitDense"):
+        kw["normalized"] = True
     w = where if k > 1 else (where[0] if multi else where)
     if multi and s.cls in ("Circuit", "CircuitDense"):
         G2 = A.make_matrix(seed + 1, "gauss", 2 ** k, 2 ** k, "complex128")
